@@ -559,6 +559,6 @@ def run(ctx, tier):
             'open-reader registry inside its critical section, and that bound is the OLDEST registered reader; (register) every successful read-only begin inserts exactly the tx_id of the Meta it keeps, writers '
             'never register; (sorted-registry) the registry is mutated only by order-preserving single-element operations and every push is followed by a sort; '
             '(deregister-only-own) Drop removes, for read-only transactions only, the one entry found by searching for its own id; (private-map) every transaction owns an '
-            'Arc of an immutable map cloned under the map lock and no pointer into the map is ever made mutable; plus the free-set discipline shared with C02. NOT decided: '
+            'Arc of an immutable map cloned under the map lock and no pointer into the map is ever made mutable; plus the free-set discipline shared with C02; (cow.write-set) data writes go only to pages the transaction allocated; (single-root, snapshot-fixed) every view hangs off the transaction\'s own header copy and the fields of TxInner are stored only by the commit, which consumes the transaction. NOT decided: '
             'the comparison inside release, reuse arithmetic, monotonicity of ids.'),
         assumptions=['transaction ids are monotone (run-time argument)', 'memmap2::Mmap is a read-only MAP_SHARED mapping'])
